@@ -53,10 +53,39 @@ def selftest_table():
     return "\n".join(rows)
 
 
+def evidence_table():
+    rows = ["| property | level | tier/seed of the committed evidence | executions | distinct non-trivial | deciding counters (min required -> observed) |",
+            "|---|---|---|---|---|---|"]
+    import importlib, sys
+    sys.path.insert(0, ROOT)
+    for i in range(1, 21):
+        pid = "C%02d" % i
+        ep = os.path.join(ROOT, "evidence", pid + ".json")
+        if not os.path.exists(ep):
+            continue
+        e = json.load(open(ep))
+        cov = e["coverage"]
+        try:
+            mod = importlib.import_module("checks." + pid.lower())
+            dec = getattr(mod, "DECIDING", {}) or {}
+        except Exception:
+            dec = {}
+        oc, od = cov.get("observed_counters", {}), cov.get("observed_distinct", {})
+        parts = []
+        for k, v in list(dec.items())[:40]:
+            if callable(v):
+                v = v(e["tier"])
+            got = oc.get(k, od.get(k, 0))
+            parts.append("%s %s->%s" % (k, v, got))
+        rows.append("| %s | %s | %s/%s | %s | %s | %s |" % (pid, e["level"], e["tier"], e["seed"], cov["evaluations"],
+                                                     cov["distinct_nontrivial"], "; ".join(parts)))
+    return "\n".join(rows)
+
+
 def main():
     p = os.path.join(ROOT, "DESIGN.md")
     s = open(p).read()
-    for name, fn in (("FINDINGS", findings_table), ("SEEDED", seeded_table), ("SELFTEST", selftest_table)):
+    for name, fn in (("FINDINGS", findings_table), ("SEEDED", seeded_table), ("SELFTEST", selftest_table), ("EVIDENCE", evidence_table)):
         a, b = "<!-- AUTOGEN:%s -->" % name, "<!-- /AUTOGEN:%s -->" % name
         if a in s and b in s:
             s = s[:s.index(a) + len(a)] + "\n" + fn() + "\n" + s[s.index(b):]
